@@ -22,7 +22,8 @@ EXTS = ["xtc", "trr", "dcd", "dtr"]
 RULE = ("histories of write calls: (a) every composition of n frames (n<=5 quick, n<=6 thorough) x 11 formats x "
         "{cell} x {time}; (b) ragged histories: 2-5 batches whose atom count / cell / time presence is perturbed at "
         "random; (c) HDF5 append mode on a file holding 0-3 frames; (d) crash points: after the k-th write, after "
-        "flush, before close, by os._exit and SIGKILL in a child process, for h5/nc/dcd/xtc. Non-trivial: more "
+        "flush, before close, flush before the first write / twice / with nothing written, and HDF5 append mode on an "
+        "existing file, by os._exit and SIGKILL in a child process, for h5/nc/dcd/xtc. Non-trivial: more "
         "than one write call or a schema change or a crash; distinct by hash of (format, history)")
 TRUSTED = ["harness/impl/writer_impl.py (feeds the writers, identifies frames by xyz[i,0,0], time and cell length)",
            "generator harness/props/C19.py; comparison with the model is done by vm_compute inside coqc",
@@ -36,10 +37,10 @@ ASSUMPTIONS = ["frames are identified by xyz[i,0,0], time=i, cell length i+2; th
 
 FIX_H5, CUR_H5, FIX_NC, CUR_NC = 11, 10, 13, 12
 # format -> (acceptable model variants: repaired first, then as-found)
-FORMATS = {"h5": [FIX_H5, CUR_H5], "nc": [FIX_NC, CUR_NC], "xtc": [0], "trr": [0], "dcd": [1], "mdcrd": [2],
+FORMATS = {"h5": [FIX_H5, CUR_H5], "nc": [FIX_NC, CUR_NC], "xtc": [0], "trr": [0], "dcd": [1], "mdcrd": [9, 2],
            "xyz": [3], "lammpstrj": [4], "gro": [5], "pdb": [6], "dtr": [7]}
 VNAME = {0: "pol_xdr", 1: "pol_dcd", 2: "pol_mdcrd", 3: "pol_xyz", 4: "pol_lammpstrj", 5: "pol_gro", 6: "pol_pdb",
-         7: "pol_dtr", 8: "full_policy", 10: "h5_cur", 11: "h5_fix", 12: "nc_cur", 13: "nc_fix"}
+         7: "pol_dtr", 8: "full_policy", 9: "pol_mdcrd_fix", 10: "h5_cur", 11: "h5_fix", 12: "nc_cur", 13: "nc_fix"}
 STORES_TIME = {"h5", "nc", "xtc", "trr", "gro", "dtr"}
 STORES_CELL = {"h5", "nc", "xtc", "trr", "gro", "dtr", "dcd", "mdcrd", "lammpstrj"}
 REQ_CELL = {"lammpstrj", "dtr"}
@@ -80,8 +81,8 @@ def build_cases(ctx):
     for fmt in FORMATS:
         for n in ([1, 2, 3, 5] if quick else [1, 2, 3, 4, 5, 6]):
             for parts in compositions(n):
-                for cell in (True, False):
-                    for time in (True, False):
+                for cell in ((True, False) if fmt in STORES_CELL else (False,)):
+                    for time in ((True, False) if fmt in STORES_TIME else (False,)):
                         if (fmt in REQ_CELL and not cell) or (fmt in REQ_TIME and not time):
                             if n != 2:
                                 continue
@@ -91,16 +92,16 @@ def build_cases(ctx):
     for fmt in FORMATS:
         for _ in range(30 if quick else 250):
             nb = rng.randint(2, 5)
-            cell0 = True if fmt in REQ_CELL else rng.random() < 0.6
-            time0 = True if fmt in REQ_TIME else rng.random() < 0.6
+            cell0 = True if fmt in REQ_CELL else (rng.random() < 0.6 and fmt in STORES_CELL)
+            time0 = True if fmt in REQ_TIME else (rng.random() < 0.6 and fmt in STORES_TIME)
             ops, k = [], 10
             for j in range(nb):
                 cell, time, atoms = cell0, time0, 4
                 if j > 0 and rng.random() < 0.5:
                     what = rng.choice(["cell", "time", "atoms", "atoms"])
-                    if what == "cell":
+                    if what == "cell" and fmt in STORES_CELL:
                         cell = not cell0
-                    elif what == "time":
+                    elif what == "time" and fmt in STORES_TIME:
                         time = not time0
                     else:
                         atoms = rng.choice([3, 5])
@@ -110,11 +111,11 @@ def build_cases(ctx):
             cases.append({"kind": "ragged", "fmt": fmt, "mode": "w", "pre": [], "ops": ops})
     # fixed probes: the historical witnesses always run
     for fmt in FORMATS:
-        c0, t0 = True, True
+        c0, t0 = fmt in STORES_CELL, fmt in STORES_TIME
         cases.insert(0, {"kind": "ragged", "fmt": fmt, "mode": "w", "pre": [],
                          "ops": [W([10, 11], c0, t0), W([12, 13], c0, False), W([14], c0, t0)]})
         cases.insert(0, {"kind": "ragged", "fmt": fmt, "mode": "w", "pre": [],
-                         "ops": [W([10, 11], c0, t0), W([12, 13], False, t0)]})
+                         "ops": [W([10, 11], c0, t0), W([12, 13], False, t0), W([14, 15], c0, t0)]})
         cases.insert(0, {"kind": "ragged", "fmt": fmt, "mode": "w", "pre": [],
                          "ops": [W([10, 11], c0, t0), W([12, 13], c0, t0, 5)]})
     # (c) HDF5 append mode
@@ -144,6 +145,34 @@ def build_cases(ctx):
         crash.append({"kind": "crash", "fmt": fmt, "mode": "w", "pre": [], "ops": [["crash", "kill"]]})
         crash.append({"kind": "crash", "fmt": fmt, "mode": "w", "pre": [],
                       "ops": [W([10, 11, 12], True, fmt != "dcd"), ["close"], ["crash", "kill"]]})
+        # other uses of flush(): before the first write (nothing initialised yet), twice in a row, with nothing
+        # written since the last one
+        t = fmt != "dcd"
+        crash.append({"kind": "crash", "fmt": fmt, "mode": "w", "pre": [],
+                      "ops": [["flush"], W([10, 11], True, t), ["flush"], ["crash", "kill"]]})
+        crash.append({"kind": "crash", "fmt": fmt, "mode": "w", "pre": [],
+                      "ops": [W([10, 11], True, t), ["flush"], ["flush"], W([12], True, t), ["flush"], ["flush"],
+                              ["crash", "kill"]]})
+        if not quick:
+            crash.append({"kind": "crash", "fmt": fmt, "mode": "w", "pre": [],
+                          "ops": [["flush"], ["flush"], W([10], True, t), ["crash", "exit"]]})
+            crash.append({"kind": "crash", "fmt": fmt, "mode": "w", "pre": [],
+                          "ops": [W([10, 11], True, t), ["flush"], W([12, 13], True, t), ["flush"], ["flush"],
+                                  W([14], True, t), ["crash", "exit"]]})
+    # HDF5 append mode: an EXISTING file is opened with 'a'; its old frames and every appended+flushed frame
+    # must survive a kill (per-mode behaviour of flush()/write())
+    for pre in ([[1, 2]] if quick else [[1, 2], [1], []]):
+        for how in (["kill"] if quick else ["kill", "exit"]):
+            A = lambda ops: crash.append({"kind": "crash", "fmt": "h5", "mode": "a", "pre": pre, "ops": ops + [["crash", how]]})
+            A([])                                                         # right after open(..., 'a')
+            A([["flush"]])                                                # flush with nothing written
+            A([W([10, 11], True, True)])                                  # write() flushes by itself
+            A([W([10, 11], True, True), ["flush"]])
+            A([W([10, 11], True, True), ["flush"], W([12], True, True), ["flush"]])
+            if not quick:
+                A([W([10], True, True), ["flush"], W([11, 12], True, True)])
+                A([W([10], True, True), W([11], True, True), W([12], True, True), ["flush"], ["flush"]])
+                A([W([10, 11], True, True), ["close"]])
     return cases + crash
 
 
@@ -159,7 +188,16 @@ def coq_ob(x):
     return "OBad" if x < 0 else "(OVal %s)" % cnat(x)
 
 
-def impl_load_to_coq(fmt, load):
+def impl_load_to_coq(fmt, load, o=None, ws=None):
+    """canonical form of what md.load returned.  Two conventions (both sides of the comparison use them):
+    a file into which no write was accepted counts as an empty file; a file into which frames of different
+    atom counts were written is corrupt whatever a lenient text loader makes of it."""
+    if o is not None and ws is not None:
+        oks = [op for op, x in zip(ws, o["ops"]) if "ok" in x]
+        if not oks:
+            return "(Some [])"
+        if len({op[4] for op in oks}) > 1:
+            return "None"
     if "load_err" in load or any(i < 0 for i in load["frames"]) or load.get("n_atoms") != 4:
         return "None"
     rows = []
@@ -224,7 +262,7 @@ def run_cases(ctx, cases):
     for ci, (c, o) in enumerate(hist):
         ws = write_ops(c)
         inp_h = clist([coq_batch(op) for op in ws])
-        exp = "(%s, %s)" % (impl_results(o, len(ws)), impl_load_to_coq(c["fmt"], o["load"]))
+        exp = "(%s, %s)" % (impl_results(o, len(ws)), impl_load_to_coq(c["fmt"], o["load"], o, ws))
         for v in FORMATS[c["fmt"]]:
             jobs.append((ci, v))
             coqcases.append(("(%s, %s, %s)" % (cnat(v), clist([cnat(i) for i in c["pre"]]), inp_h), exp))
@@ -256,14 +294,22 @@ def run_cases(ctx, cases):
         {f: (VNAME[v] if v is not None else None) for f, v in explained.items()})
     # ---------------- the property on the implementation
     oneshot = {}
-    for c, o in hist:
+    def explained_case(i, fmt):
+        """the first acceptable variant that reproduces the implementation on THIS case (failures are attributed
+        case by case, so that a replay of one case gets the same tags as the full run; the tie itself is
+        'one variant reproduces all cases' and is reported above)"""
+        for v in FORMATS[fmt]:
+            if (i, v) not in badset:
+                return v
+        return None
+
+    for hi, (c, o) in enumerate(hist):
         ws = write_ops(c)
         nontrivial = len(ws) > 1
         ctx.count({"fmt": c["fmt"], "mode": c["mode"], "pre": c["pre"], "ops": c["ops"]}, nontrivial=nontrivial,
                   bucket="%s/%s" % (c["fmt"], c["kind"]))
         fmt = c["fmt"]
-        v = explained.get(fmt)
-        vn = VNAME.get(v)
+        vn = VNAME.get(explained_case(hi, fmt))
         acc, sch = expected_accept(c)
         got = [("ok" in x) for x in o["ops"][:len(ws)]]
         want = expected_obs(c, acc, sch)
@@ -289,8 +335,14 @@ def run_cases(ctx, cases):
             else:
                 ctx.fail("%s: a ragged write (%s changed) was accepted" % (fmt, "/".join(sorted(ragged_kinds))), c,
                          observed=o, expected=acc, tags=dict(tags, what="ragged_accepted", ragged=sorted(ragged_kinds)))
+        elif not any(acc) and not c.get("pre"):
+            pass            # nothing was accepted: no file / an empty file, nothing to load
         elif got_obs != want:
-            if c["kind"] == "partition":
+            only_time = (got_obs is not None and got_obs["frames"] == want["frames"] and got_obs["cell"] == want["cell"])
+            if only_time:
+                ctx.fail("%s: the stored times depend on how the frames were split into write calls" % fmt, c,
+                         observed=load, expected=want, tags=dict(tags, what="time_partition"))
+            elif c["kind"] == "partition" or all(acc):
                 ctx.fail("%s: incremental writing differs from one-shot writing" % fmt, c, observed=load, expected=want,
                          tags=dict(tags, what="partition", with_time=c.get("time"), with_cell=c.get("cell")))
             else:
@@ -300,7 +352,7 @@ def run_cases(ctx, cases):
             key = (fmt, c["cell"], c["time"], sum(len(op[1]) for op in ws))
             if len(ws) == 1:
                 oneshot[key] = got_obs
-    for c, o in hist:
+    for hi, (c, o) in enumerate(hist):
         # partitioned result against the implementation's own one-shot result (needs no expectation of mine)
         if c["kind"] == "partition" and c["mode"] == "w":
             ws = write_ops(c)
@@ -308,18 +360,32 @@ def run_cases(ctx, cases):
             load = o["load"]
             got_obs = None if "load_err" in load else {"frames": load["frames"], "time": load["time"], "cell": load["cell"]}
             if key in oneshot and oneshot[key] != got_obs and all("ok" in x for x in o["ops"][:len(ws)]):
-                ctx.fail("%s: incremental writing differs from one-shot writing" % c["fmt"], c, observed=load,
-                         expected=oneshot[key], tags={"fmt": c["fmt"], "explained_by": VNAME.get(explained.get(c["fmt"])),
-                                                      "kind": "partition", "what": "partition",
-                                                      "with_time": c.get("time"), "with_cell": c.get("cell")})
+                one = oneshot[key]
+                only_time = (one is not None and got_obs is not None and one["frames"] == got_obs["frames"]
+                             and one["cell"] == got_obs["cell"])
+                ctx.fail(("%s: the stored times depend on how the frames were split into write calls" if only_time
+                          else "%s: incremental writing differs from one-shot writing") % c["fmt"], c, observed=load,
+                         expected=one, tags={"fmt": c["fmt"], "explained_by": VNAME.get(explained_case(hi, c["fmt"])),
+                                             "kind": "partition", "what": "time_partition" if only_time else "partition",
+                                             "with_time": c.get("time"), "with_cell": c.get("cell")})
     # ---------------- crash points (fault enumeration) against the automaton
     ccases, cidx = [], []
+    fe = ctx.notes.setdefault("coverage_extra", {}).setdefault("fault_enumeration", {"crash_points": 0, "by_format": {}})
+    fe["crash_points"] += len(crash)
+    for c, _o in crash:
+        fe["by_format"][c["fmt"]] = fe["by_format"].get(c["fmt"], 0) + 1
+    fe["method"] = "child process runs the history and is terminated by os._exit / SIGKILL at the crash point; parent md.load()s"
     for i, (c, o) in enumerate(crash):
-        ctx.count({"fmt": c["fmt"], "ops": c["ops"]}, nontrivial=True, bucket="%s/crash" % c["fmt"])
+        ctx.count({"fmt": c["fmt"], "mode": c.get("mode"), "pre": c.get("pre"), "ops": c["ops"]}, nontrivial=True,
+                  bucket="%s/crash%s" % (c["fmt"], "-append" if c.get("mode") == "a" else ""))
         load = o["load"]
         fmt = c["fmt"]
         dops, flushed, written, since = [], [], [], []
-        closed = False
+        if c.get("pre"):
+            # the frames already in the file were written and closed by an earlier handle
+            dops += ["DWrite %s" % clist([cnat(x) for x in c["pre"]]), "DClose"]
+            flushed += c["pre"]
+            written += c["pre"]
         for op in c["ops"]:
             if op[0] == "write":
                 dops.append("DWrite %s" % clist([cnat(x) for x in op[1]]))
@@ -337,7 +403,7 @@ def run_cases(ctx, cases):
                 flushed += since
                 since = []
         got = None if "load_err" in load else load["frames"]
-        tags = {"fmt": fmt, "kind": "crash", "how": c["ops"][-1][1]}
+        tags = {"fmt": fmt, "kind": "crash", "how": c["ops"][-1][1], "mode": c.get("mode", "w")}
         if not written:
             continue        # nothing written: any outcome (no file, unreadable empty file) is acceptable
         if got is None:
